@@ -700,7 +700,7 @@ def run(ctx):
             for lt in ("l2_amplitude", "l1_amplitude", "l2_intensity", "l1_intensity"):
                 inv.append((J, obj_type, modes, slices, lt))
     ctx.pmap(w_invariance, inv, chunk=1, label="loss/gradient batch invariance", seed=ctx.seed, quick=q)
-    det = [(J, ot, m, bs, ps) for J in (4, 12) for ot, m in (("complex", 1), ("potential", 2)) for bs in ([1, 2] if J == 4 else [3, 5]) for ps in ([11] if q else [11, 12, 13])]
+    det = [(J, ot, m, bs, ps) for J in (4, 12) for ot, m in (("complex", 1), ("potential", 2)) for bs in ([1, 2] if J == 4 else [3, 5]) for ps in ([0, 11] if q else [0, 11, 12, 13])]
     m = ctx.pmap(w_determinism, det, chunk=1, label="seeded determinism", seed=ctx.seed)
     rh = [(4, "complex", 1, 2, 11), (12, "potential", 2, 5, 11)] if q else [(J, ot, mm, bs, 11) for J, bs in ((4, 1), (4, 2), (12, 5)) for ot, mm in (("complex", 1), ("potential", 2))]
     # with a validation split (random and grid): the split itself is state that a reset must redraw identically
@@ -710,6 +710,10 @@ def run(ctx):
     rh += [b + (sp, fr) for b in base for sp in SEED_SPELLINGS for fr in (True, False) if not (sp == "int" and fr)]
     big = [(4, "complex", 1, 2, bsd, None) for bsd in BIG_SEEDS] + ([] if q else [(12, "complex", 1, 4, bsd, (0.25, "random")) for bsd in BIG_SEEDS])
     rh += [b + (sp, fr) for b in big for sp in ("int", "np_generator") for fr in (True, False)]
+    # the legal FALSY seed 0 (and -0 / False spellings are not seeds): every spelling, with and without a first reset, with a
+    # shuffled mini-batch order and with a random validation split
+    zero = [(4, "complex", 1, 2, 0, None), (12, "complex", 1, 4, 0, (0.25, "random"))]
+    rh += [b + (sp, fr) for b in zero for sp in SEED_SPELLINGS for fr in (True, False)]
     ctx.pmap(w_neutral_ops, [(4, "complex", 1, 2, 5), (12, "complex", 1, 5, 11)] if q else [(4, "complex", 1, 2, 5), (4, "potential", 2, 1, 11), (12, "complex", 1, 5, 11), (12, "potential", 2, 3, 5)], chunk=1, label="calls that are no reconstruction steps", seed=ctx.seed, scratch=ctx.scratch)
     ctx.pmap(w_shared_generator, [(4, "complex", 1, 2, 5), (12, "complex", 1, 5, 11)] if q else [(4, "complex", 1, 2, 5), (4, "potential", 2, 1, 11), (12, "complex", 1, 5, 11), (12, "potential", 2, 3, 5)], chunk=1, label="one Generator object, several holders", seed=ctx.seed)
     ctx.pmap(w_reset_histories, rh, chunk=1, label="reset after every history", seed=ctx.seed, depth=2 if q else 3)
